@@ -125,8 +125,8 @@ def load_c09_findings():
 def split_answer(ans):
     """'model=.. spec=.. kf=..' -> dict (values may contain spaces)"""
     d = {}
-    for key in ("model", "spec", "kf"):
-        m = re.search(r"(?:^| )%s=(.*?)(?= (?:model|spec|kf)=|$)" % key, ans)
+    for key in ("model", "spec", "kf", "nc"):
+        m = re.search(r"(?:^| )%s=(.*?)(?= (?:model|spec|kf|nc)=|$)" % key, ans)
         if m:
             d[key] = m.group(1)
     return d
@@ -229,12 +229,13 @@ class C09(Check):
         impl = "|".join(["new 0"] + setup + ["prog 0 " + hx(src), "dump 0"])
         return Case(cid, line, impl, {"kind": "call", "src": src, "vars": vars_, "recv": "X"})
 
-    def bi_case(self, cid, name, args):
+    def bi_case(self, cid, name, args, flag=""):
         names = ["x", "y", "z", "w", "v"][:len(args)]
-        setup = ["set 0 %s %s" % (hx(n.upper()), v) for n, v in zip(names, args)]
+        setop = "setq" if flag == "opaque" else "set"
+        setup = ["%s 0 %s %s" % (setop, hx(n.upper()), v) for n, v in zip(names, args)]
         src = "r = %s(%s);" % (name, ", ".join(names))
         impl = "|".join(["new 0"] + setup + ["prog 0 " + hx(src), "dump 0"])
-        return Case(cid, "bi %s %s" % (name, " ".join(args)), impl,
+        return Case(cid, ("bi %s %s %s" % (name, " ".join(args), flag)).strip(), impl,
                     {"kind": "call", "src": src, "vars": {n.upper(): v for n, v in zip(names, args)}, "recv": None})
 
     def seq_case(self, cid, recv, steps):
@@ -271,6 +272,79 @@ class C09(Check):
         src = "forall e in t loop %s end loop;" % body
         ops = ["new 0", "set 0 %s %s" % (hx("T"), tbl), "set 0 %s %s" % (hx("U"), tbl), "prog 0 " + hx(src), "dump 0"]
         return Case(cid, "", "|".join(ops), {"kind": "lock", "src": src, "tbl": tbl, "expect": expect})
+
+    def lockp_case(self, cid, tbl, frames, post, op, root, nchain, args):
+        """frames: list of (iter, target) names; the call `r = <root>[.at(0)]*nchain.<op>(…)` is placed after the `post`
+        innermost loops have been closed. Model line `lockp …` (DrvC09.runLock: acceptMember / acceptSet with the lock flag
+        computed by forallEnter / forallLeave / lockStmt)."""
+        names = ["k%d" % i for i in range(len(args))]
+        recv = root + ".at(0)" * nchain
+        pos = "0, " if op in ("put", "insert") else ("0" if op in ("at", "delete") else "")
+        call = "r = %s.%s(%s%s);" % (recv, op, pos, ", ".join(names))
+        opened = frames[:len(frames) - post]
+        closed = frames[len(frames) - post:]
+        inner = ""
+        if closed:
+            inner = "".join("forall %s in %s loop " % fr for fr in closed) + "x = 1; " + "end loop; " * len(closed)
+        src = "".join("forall %s in %s loop " % fr for fr in opened) + inner + call + " end loop;" * len(opened)
+        ops = ["new 0", "set 0 %s %s" % (hx("T"), tbl), "set 0 %s %s" % (hx("U"), tbl)]
+        ops += ["set 0 %s %s" % (hx(n.upper()), v) for n, v in zip(names, args)]
+        ops += ["prog 0 " + hx(src), "dump 0"]
+        line = "lockp %s %s%s call %s %s %d %s" % (tbl, " ".join("fa:%s:%s" % fr for fr in frames), (" post:%d" % post) if post else "",
+                                                  op, root, nchain, " ".join(args))
+        line = re.sub(r" +", " ", line).strip()
+        return Case(cid, line, "|".join(ops), {"kind": "lockp", "src": src, "tbl": tbl, "frames": frames, "post": post, "op": op,
+                                                "root": root, "nchain": nchain})
+
+    def gen_lockp(self, cid):
+        """all members x locked / unlocked x direct / nested forall x receiver = the table, a chain hanging off it, a copy of it
+        (other symbol), the iterator"""
+        out = []
+        tabs = [("i", 2, "Ti2[Ti1[I:1,I:2],Ti1[I:3]]"), ("i", 1, "Ti1[I:1,I:2,I:3]"), ("s", 1, "Ts1[S:6162,S:63]"),
+                ("u", 1, "Tu1{%s}[%s,%s]" % (DECL_IS, TUP_IS[0], TUP_IS[2]))]
+        configs = [([], 0), ([("e", "t")], 0), ([("e", "u")], 0), ([("e", "t")], 1), ([("e", "t"), ("f", "u")], 0), ([("e", "u"), ("f", "t")], 0),
+                   ([("e", "t"), ("f", "t")], 0), ([("e", "t"), ("f", "u")], 1), ([("e", "t"), ("f", "t")], 1), ([("e", "u"), ("f", "t")], 1),
+                   ([("e", "t"), ("f", "u")], 2), ([("e", "t"), ("f", "e")], 0), ([("e", "t"), ("f", "e")], 1)]
+        ops = ["concat", "at", "put", "count", "delete", "insert", "set@1"]
+        dist = {}
+        for (kind, dim, T) in tabs:
+            for frames, post in configs:
+                lev = {"t": dim, "u": dim}
+                ok = True
+                for (it, tg) in frames:
+                    if lev.get(tg, 0) < 1:
+                        ok = False
+                        break
+                    lev[it] = lev[tg] - 1
+                if not ok:
+                    continue
+                opened = frames[:len(frames) - post]
+                roots = ["t", "u"] + [it for (it, _) in opened]
+                for root in roots:
+                    for nchain in (0, 1):
+                        rl = lev[root] - nchain
+                        if rl < 0:
+                            continue
+                        # an element argument of the receiver's element type
+                        if rl >= 2:
+                            elem = "Ti1[I:9]"
+                        elif rl == 1:
+                            elem = {"i": "I:7", "s": "S:78", "u": TUP_IS[1]}[kind]
+                        else:
+                            elem = {"i": "I:7", "s": "I:65", "u": "I:7"}[kind]
+                        for op in ops:
+                            args = [] if op in ("at", "count", "delete") else [elem]
+                            out.append(self.lockp_case(cid(), T, frames, post, op, root, nchain, args))
+                            key = "%s|%s|%s" % ("nest%d" % len(frames) + ("post%d" % post if post else ""), "root=" + root + ("+chain" if nchain else ""), op)
+                            dist[key] = dist.get(key, 0) + 1
+        self.stats["lockp_cases"] = len(out)
+        self.stats["lockp_distribution"] = {"by_nesting": {}, "by_root": {}, "by_member": {}}
+        for key, n in dist.items():
+            a, b, c = key.split("|")
+            for nm, k in (("by_nesting", a), ("by_root", b), ("by_member", c)):
+                d = self.stats["lockp_distribution"][nm]
+                d[k] = d.get(k, 0) + n
+        return out
 
     # ------------------------------------------------------------------ generation
     def gen_cases(self):
@@ -390,13 +464,26 @@ class C09(Check):
         for cnt in ("I:0", "I:1", "I:3", "I:-1", "N:i0", "N:?0", D25, "I:%d" % I64MIN, "S:31"):
             for x in tabx:
                 cases.append(self.bi_case(cid(), "tab", [cnt, x]))
+        # the same under opaque static types (run-time checks only), nested tables, the dimension limit TYPE_LEVEL_MAX = 255
+        nest = ["N:i253", "N:i254", "N:i255", "N:s254", table("i", 2, 2, 1), table("u", 2, 1, 1), "Ti2[]", "Tu1{%s}[]" % DECL_IS]
+        for cnt in ("I:0", "I:2", "I:-1", "N:i0", "N:?0", D25, "S:31"):
+            for x in tabx + nest:
+                cases.append(self.bi_case(cid(), "tab", [cnt, x], "opaque"))
+        for cnt in ("I:0", "I:1", "I:2"):
+            for x in nest:
+                cases.append(self.bi_case(cid(), "tab", [cnt, x]))
+        self.stats["tab_dist"] = {"element_values": len(tabx + nest), "counts_static": 9, "counts_opaque": 7, "level_limit_values": 4}
         cases.append(self.bi_case(cid(), "tab", []))
         cases.append(self.bi_case(cid(), "tup", []))
         tupx = ["I:1", "N:i0", D15, "S:61", "N:s0", "R:00", "B:1", "N:?0", "N:b0", TUP_IS[0], "Ti1[I:1]", "N:?1", "N:u0#0"]
         for a in tupx:
             cases.append(self.bi_case(cid(), "tup", [a]))
+            cases.append(self.bi_case(cid(), "tup", [a], "opaque"))
             for b in tupx[:8]:
                 cases.append(self.bi_case(cid(), "tup", [a, b]))
+                cases.append(self.bi_case(cid(), "tup", [a, b], "opaque"))
+                cases.append(self.bi_case(cid(), "tup", [b, a], "opaque"))
+        self.stats["tup_dist"] = {"item_values": len(tupx), "arity": [1, 2, 5], "static": True, "opaque": True}
         cases.append(self.bi_case(cid(), "tup", ["B:1", "R:61", "B:1", "B:1", "S:73"]))
         cases.append(self.bi_case(cid(), "tup", [D15, "I:2", "B:1", "S:73", "B:1"]))
         cases.append(self.bi_case(cid(), "tup", ["R:61", "R:61", "R:61", D15, "R:61"]))
@@ -430,6 +517,7 @@ class C09(Check):
             cases.append(self.forall_lock_case(cid(), T, "forall f in t loop u.concat(f); end loop;", "ok-nested"))
             cases.append(self.forall_lock_case(cid(), T, "u.concat(e); u.delete(0);", "ok-other"))
             cases.append(self.forall_lock_case(cid(), T, "x = t.count();", "ok-read"))
+        cases += self.gen_lockp(cid)
         self.stats["cases"] = n[0]
         return cases
 
@@ -547,6 +635,10 @@ class C09(Check):
             return
         if mout.startswith("hazard "):
             agree_model = outcomes_agree(out, mout)
+        elif kf == "C09.tab.levelWrap" and re.match(r"ok T[a-z]0(\{[^}]*\})?\[", mout):
+            # the model's outcome is a Collection typed with level 0 (`T<k>0[…]`): the implementation's Value has that scalar
+            # type and the collection's address as payload — the dump prints the scalar of that type, whatever its bits are
+            agree_model = bool(re.match(r"ok %s:" % mout[4].upper(), out))
         else:
             agree_model = out == mout
         model_ok_spec = (not mout.startswith("hazard ")) and satisfies(spec, mout)
@@ -581,6 +673,12 @@ class C09(Check):
         parts = iraw.split("|")
         if kind == "call":
             m = split_answer(mraw)
+            # values in the domain of the refinement theorems (Spec.canon, executed by the driver on every mb / setitem case)
+            if c.model_line.startswith(("mb ", "setitem ")):
+                key = "canon_values_checked" if not m.get("nc") else "noncanon_values"
+                self.stats[key] = self.stats.get(key, 0) + 1
+                if m.get("nc"):
+                    self.record_violation("generated value outside Spec.canon (the domain of the refinement theorems)", c, "?", m)
             if c.meta["recv"] is None:
                 for key in ("model", "spec"):
                     if key in m:
@@ -673,6 +771,44 @@ class C09(Check):
                 return self.record_violation("forall write changed the source variable", c, self.sym(d, "V"), m)
             if d["cd"] != 0 or d["syms"].get("T", ("", "sxl1", ""))[1] != "s0l0":
                 return self.record_violation("residue after forall (control depth %d, flags %s)" % (d["cd"], d["syms"]["T"][1]), c, after, m)
+            return
+        if kind == "lockp":
+            m = split_answer(mraw)
+            extra = dict(re.findall(r"(lr|ls|fl)=(\S+)", mraw))
+            mout = re.sub(r" (lr|ls|fl)=.*$", "", m.get("model", ""))
+            if crashed:
+                return self.record_violation("forall lock program crashed", c, iraw, m, stderr)
+            prog, dump = parts[-2], parts[-1]
+            out = "perr " + prog.split()[1] if prog.startswith("perr ") else ("accept" if (prog == "ok-" or prog.startswith("rerr ")) else prog)
+            self.tally(c, out, {"model": mout})
+            hits = self.stats.setdefault("lockp_outcomes", {})
+            hits[mout] = hits.get(mout, 0) + 1
+            if not mout:
+                return self.record_violation("model gave no answer (lockp)", c, out, m, stderr)
+            # the statement tree (lockStmt / forallEnter / forallLeave) and the flag-level test (lockRefuses) agree
+            if (extra.get("lr") == "1") != (extra.get("ls") == "refused"):
+                return self.record_violation("model inconsistency: lockRefuses and lockStmt disagree", c, out, m, stderr)
+            if mout == "perr 32" and extra.get("lr") != "1":
+                return self.record_violation("model inconsistency: CONST_VIOLATION without lockRefuses", c, out, m, stderr)
+            if out != mout:
+                return self.record_violation("forall lock: compile-time outcome of `%s` is %s, the model (acceptMember with the lock flag of "
+                                             "forallEnter/forallLeave) gives %s" % (c.meta["src"], out, mout), c, out, m, stderr)
+            d = parse_dump(dump)
+            if d is None:
+                return self.record_violation("unparsable dump (lockp)", c, out, m, stderr)
+            if out.startswith("perr "):
+                for nm in ("T", "U"):
+                    if self.sym(d, nm) != c.meta["tbl"]:
+                        return self.record_violation("a program refused at compile time changed %s" % nm, c, self.sym(d, nm), m, stderr)
+            # the flags saved by parse_clause are restored on both exits (normal end, ParseError)
+            for nm in ("T", "U"):
+                if d["syms"].get(nm, ("", "s0l0", ""))[1] != "s0l0":
+                    return self.record_violation("symbol %s keeps flags %s after the statement" % (nm, d["syms"][nm][1]), c, out, m, stderr)
+            # a locked table keeps its length whatever the body did
+            root_locked = extra.get("fl", "0000")[0] == "1"
+            if root_locked and top_len(self.sym(d, "T")) != top_len(c.meta["tbl"]):
+                return self.record_violation("the table traversed by forall changed length: %s -> %s (%s)" % (c.meta["tbl"], self.sym(d, "T"), c.meta["src"]),
+                                             c, self.sym(d, "T"), m, stderr)
             return
         if kind == "lock":
             if crashed:
